@@ -208,3 +208,100 @@ fn u4_trace_chain3() {
     core::mem::forget(m);
     core::mem::forget((a, b, c));
 }
+
+// ---- U2: `Link`'s `Hash` agrees with its `Eq` (discharges the exec half of the Verus assumption
+// `axiom_key_models`: "equal keys hash equally" for EVERY hasher, because equal keys feed it identical input)
+pub struct RecHasher {
+    pub n: usize,
+    pub tag: [u8; 4],
+    pub val: [u64; 4],
+}
+
+impl RecHasher {
+    fn push(&mut self, tag: u8, val: u64) {
+        if self.n < 4 {
+            self.tag[self.n] = tag;
+            self.val[self.n] = val;
+        }
+        self.n += 1;
+    }
+}
+
+impl core::hash::Hasher for RecHasher {
+    fn finish(&self) -> u64 {
+        0
+    }
+    fn write(&mut self, bytes: &[u8]) {
+        // raw byte input is recorded by length and first byte only; the harness requires that it is never used
+        self.push(99, ((bytes.len() as u64) << 8) | (if bytes.is_empty() { 0 } else { bytes[0] as u64 }));
+    }
+    fn write_u8(&mut self, i: u8) {
+        self.push(1, i as u64);
+    }
+    fn write_u16(&mut self, i: u16) {
+        self.push(2, i as u64);
+    }
+    fn write_u32(&mut self, i: u32) {
+        self.push(3, i as u64);
+    }
+    fn write_u64(&mut self, i: u64) {
+        self.push(4, i);
+    }
+    fn write_usize(&mut self, i: usize) {
+        self.push(5, i as u64);
+    }
+    fn write_i8(&mut self, i: i8) {
+        self.push(6, i as u64);
+    }
+    fn write_i16(&mut self, i: i16) {
+        self.push(7, i as u64);
+    }
+    fn write_i32(&mut self, i: i32) {
+        self.push(8, i as u64);
+    }
+    fn write_i64(&mut self, i: i64) {
+        self.push(9, i as u64);
+    }
+    fn write_isize(&mut self, i: isize) {
+        self.push(10, i as u64);
+    }
+}
+
+fn any_link() -> Link<u8> {
+    let addr: usize = kani::any();
+    kani::assume(addr != 0);
+    let p = unsafe { NonNull::new_unchecked(addr as *mut RcBox<u8>) };
+    let k: u8 = kani::any();
+    kani::assume(k < 3);
+    if k == 0 {
+        Link::forward(p)
+    } else if k == 1 {
+        Link::backward(p)
+    } else {
+        Link::loopback(p)
+    }
+}
+
+fn feed(l: &Link<u8>) -> RecHasher {
+    let mut h = RecHasher { n: 0, tag: [0; 4], val: [0; 4] };
+    core::hash::Hash::hash(l, &mut h);
+    h
+}
+
+/// over ALL addresses and kinds (loop-free: complete): `==` is an equivalence relation that is exactly
+/// "same kind and same address", and equal links feed identical input to any hasher
+#[kani::proof]
+fn u2_link_hash_agrees_with_eq() {
+    let (a, b, c) = (any_link(), any_link(), any_link());
+    kani::assert(a == a, "U2.link_eq.reflexive");
+    kani::assert((a == b) == (b == a), "U2.link_eq.symmetric");
+    kani::assert(!(a == b && b == c) || a == c, "U2.link_eq.transitive");
+    let same = a.kind() == b.kind() && a.as_ptr() as usize == b.as_ptr() as usize;
+    kani::assert((a == b) == same, "U2.link_eq.iff_same_kind_and_same_address");
+    let (ha, hb) = (feed(&a), feed(&b));
+    kani::assert(ha.n >= 1 && ha.n <= 4, "U2.link_hash.feeds_between_one_and_four_words");
+    let same_feed = ha.n == hb.n && ha.tag == hb.tag && ha.val == hb.val;
+    kani::assert(!(a == b) || same_feed, "U2.link_hash.equal_links_feed_identical_hasher_input");
+    kani::cover!(a == b, "equal links are reachable");
+    kani::cover!(!(a == b), "distinct links are reachable");
+}
